@@ -309,6 +309,98 @@ func parseFault(s string) faultCase {
 
 var faultOTs = []string{"co", "cot", "co", "cotm"}
 
+// Streaming sessions (compiler.Stream <-> circuit.StreamEvaluator) take part in
+// the fault enumeration as session indices >= streamBase.
+const streamBase = 100
+
+var streamPrograms = []string{
+	"package main\nfunc main(a, b uint4) uint4 {\n\treturn a*b + 1\n}\n",
+	"package main\nfunc main(a, b uint6) (uint6, bool) {\n\tc := a + b\n\tif c > a {\n\t\treturn c, true\n\t}\n\treturn a &^ b, false\n}\n",
+	"package main\nfunc main(a, b int5) (int5, int5) {\n\treturn a - b, a & b\n}\n",
+}
+
+type streamSess struct {
+	src      string
+	gin, ein []string
+	outBits  int
+}
+
+func streamSessionFor(seed uint64, ci int) (*streamSess, uint64) {
+	r := hxlib.NewRng(seed*1000003 + uint64(ci)*7919 + 13)
+	k := (ci - streamBase) % len(streamPrograms)
+	w := []uint{4, 6, 5}[k]
+	ss := &streamSess{src: streamPrograms[k], outBits: []int{4, 7, 10}[k]}
+	av := r.U64() & (1<<w - 1)
+	bv := r.U64() & (1<<w - 1)
+	ss.gin = []string{fmt.Sprint(av)}
+	ss.ein = []string{fmt.Sprint(bv)}
+	return ss, r.U64()
+}
+
+func mutator(f *faultCase) func(off int64, p []byte) {
+	return func(off int64, p []byte) {
+		end := off + int64(len(p))
+		switch f.kind {
+		case "bit":
+			if int64(f.pos) >= off && int64(f.pos) < end {
+				p[int64(f.pos)-off] ^= 1 << uint(f.arg%8)
+			}
+		case "byte":
+			if int64(f.pos) >= off && int64(f.pos) < end {
+				p[int64(f.pos)-off] ^= 0xff
+			}
+		case "burst":
+			br := hxlib.NewRng(uint64(f.arg))
+			for k := 0; k < 16; k++ {
+				b := byte(br.U64()) | 1
+				q := int64(f.pos + k)
+				if q >= off && q < end {
+					p[q-off] ^= b
+				}
+			}
+		}
+	}
+}
+
+// runStreamFault runs one streaming session with at most one fault.
+func runStreamFault(seed uint64, f *faultCase, ci int, deadline time.Duration) (string, int, int) {
+	ss, sub := streamSessionFor(seed, ci)
+	rr := hxlib.NewRng(sub)
+	d := hxlib.NewDuplex(nil)
+	if f != nil {
+		if f.dir == 0 {
+			d.AB.Mutate = mutator(f)
+		} else {
+			d.BA.Mutate = mutator(f)
+		}
+	}
+	res := hxlib.RunStreamSession(ss.src, ss.gin, ss.ein, hxlib.COFactory(rr.Fork()), rr.Fork(), d, deadline)
+	d.Close()
+	class := ""
+	switch {
+	case res.Stalled && res.GRes == nil:
+		class = "stalled"
+	case res.GPanic != nil, res.GErr != nil:
+		class = "error"
+	default:
+		ref := hxlib.StreamReference(ss.src, ss.gin, ss.ein)
+		if ref.Err != nil || ref.Panic != nil {
+			class = "error"
+		} else if hxlib.BigsString(ref.Res) == hxlib.BigsString(res.GRes) {
+			class = "ok"
+		} else {
+			class = "WRONG got=" + hxlib.BigsString(res.GRes) + " want=" + hxlib.BigsString(ref.Res)
+		}
+	}
+	if res.GPanic != nil {
+		class += " gpanic"
+	}
+	if res.EPanic != nil {
+		class += " epanic"
+	}
+	return class, len(d.AB.Rec), len(d.BA.Rec)
+}
+
 func mkOT(name string, rng *hxlib.Rng) ot.OT {
 	switch name {
 	case "co":
@@ -351,34 +443,16 @@ func (t *tapeThen) Read(p []byte) (int, error) {
 // runFault runs one complete session with at most one fault; returns the
 // garbler's outcome class and the two stream lengths.
 func runFault(seed uint64, f *faultCase, ci int, deadline time.Duration) (string, int, int) {
+	if ci >= streamBase {
+		return runStreamFault(seed, f, ci, deadline)
+	}
 	s, sub := sessionFor(seed, ci)
 	rr := hxlib.NewRng(sub)
 	otName := faultOTs[ci%len(faultOTs)]
 	gr, er := rr.Fork(), rr.Fork()
 	d := hxlib.NewDuplex(nil)
 	if f != nil {
-		mut := func(off int64, p []byte) {
-			end := off + int64(len(p))
-			switch f.kind {
-			case "bit":
-				if int64(f.pos) >= off && int64(f.pos) < end {
-					p[int64(f.pos)-off] ^= 1 << uint(f.arg%8)
-				}
-			case "byte":
-				if int64(f.pos) >= off && int64(f.pos) < end {
-					p[int64(f.pos)-off] ^= 0xff
-				}
-			case "burst":
-				br := hxlib.NewRng(uint64(f.arg))
-				for k := 0; k < 16; k++ {
-					b := byte(br.U64()) | 1
-					q := int64(f.pos + k)
-					if q >= off && q < end {
-						p[q-off] ^= b
-					}
-				}
-			}
-		}
+		mut := mutator(f)
 		if f.dir == 0 {
 			d.AB.Mutate = mut
 		} else {
@@ -473,8 +547,10 @@ func faults(args []string) int {
 	}
 	// baselines
 	type base struct {
+		ci     int
 		ab, ba int
 		s      *sess
+		ss     *streamSess
 	}
 	var bases []base
 	for ci := 0; ci < nsess; ci++ {
@@ -484,45 +560,67 @@ func faults(args []string) int {
 			o.Fail("c16-baseline", map[string]any{"session": ci, "class": class})
 			return 0
 		}
-		bases = append(bases, base{ab, ba, s})
+		bases = append(bases, base{ci, ab, ba, s, nil})
 		o.CountN("transcript_bytes", ab+ba)
 		o.Sample(map[string]any{"session": ci, "ot": faultOTs[ci%len(faultOTs)], "circuit": hxlib.CircLine(s.c), "bytes_g2e": ab, "bytes_e2g": ba})
+	}
+	nstream := 2
+	if cf.Tier == "thorough" {
+		nstream = 3
+	}
+	for k := 0; k < nstream; k++ {
+		ci := streamBase + k
+		class, ab, ba := runFault(cf.Seed, nil, ci, 30*time.Second)
+		ss, _ := streamSessionFor(cf.Seed, ci)
+		if class != "ok" {
+			o.Fail("c16-baseline", map[string]any{"session": ci, "class": class, "src": ss.src})
+			return 0
+		}
+		bases = append(bases, base{ci, ab, ba, nil, ss})
+		o.CountN("transcript_bytes", ab+ba)
+		o.Count("streaming_sessions")
+		o.Sample(map[string]any{"session": ci, "mode": "streaming", "src": ss.src, "bytes_g2e": ab, "bytes_e2g": ba})
 	}
 	// enumerate cases
 	var cases []faultCase
 	if cf.Tier == "thorough" {
-		for ci, b := range bases {
+		for _, b := range bases {
 			for dir, n := range []int{b.ab, b.ba} {
 				for pos := 0; pos < n; pos++ {
-					cases = append(cases, faultCase{ci, dir, pos, "bit", rng.Intn(8)})
+					cases = append(cases, faultCase{b.ci, dir, pos, "bit", rng.Intn(8)})
 					if pos%2 == 0 {
-						cases = append(cases, faultCase{ci, dir, pos, "byte", 0})
+						cases = append(cases, faultCase{b.ci, dir, pos, "byte", 0})
 					}
 					if pos%8 == 0 {
-						cases = append(cases, faultCase{ci, dir, pos, "burst", rng.Intn(1 << 30)})
+						cases = append(cases, faultCase{b.ci, dir, pos, "burst", rng.Intn(1 << 30)})
 					}
 				}
 			}
 		}
 	} else {
 		for k := 0; k < cf.N; k++ {
-			ci := k % len(bases)
-			b := bases[ci]
+			b := bases[k%len(bases)]
 			dir := rng.Intn(2)
 			n := b.ab
 			if dir == 1 {
 				n = b.ba
 			}
 			pos := rng.Intn(n)
+			outBits := 0
+			if b.s != nil {
+				outBits = b.s.c.Outputs.Size()
+			} else {
+				outBits = b.ss.outBits
+			}
 			// a third of the cases target the regions that decide the result
 			switch rng.Intn(6) {
 			case 0:
-				dir, pos = 1, b.ba-1-rng.Intn(16*b.s.c.Outputs.Size())
+				dir, pos = 1, b.ba-1-rng.Intn(16*outBits)
 			case 1:
 				dir, pos = 0, rng.Intn(36+4)
 			}
 			kind := []string{"bit", "bit", "byte", "burst"}[rng.Intn(4)]
-			cases = append(cases, faultCase{ci, dir, pos, kind, rng.Intn(1 << 30)})
+			cases = append(cases, faultCase{b.ci, dir, pos, kind, rng.Intn(1 << 30)})
 		}
 	}
 	// one child process per case, 32 at a time
@@ -560,8 +658,22 @@ func faults(args []string) int {
 	for _, k := range keys {
 		f := parseFault(k)
 		class := results[k]
-		b := bases[f.ci]
-		reg := region(f.dir, f.pos, b.ab, b.ba, b.s)
+		var b base
+		for _, bb := range bases {
+			if bb.ci == f.ci {
+				b = bb
+			}
+		}
+		reg := ""
+		if b.s != nil {
+			reg = region(f.dir, f.pos, b.ab, b.ba, b.s)
+		} else if f.dir == 1 && f.pos >= b.ba-16*b.ss.outBits {
+			reg = "stream_outputlabels"
+		} else if f.dir == 1 {
+			reg = "stream_e2g"
+		} else {
+			reg = "stream_g2e"
+		}
 		first := strings.Fields(class)[0]
 		o.Count("class_" + first)
 		o.Count("region_" + reg)
